@@ -1,41 +1,84 @@
 import Driver.TxCommon
-/-! Driver of C07: one `c07` line = one transaction through the three inclusion decisions
-(harness/chain/zz_verif_c07_test.go). Time is relative: now = 0, expiry = tsoff. -/
+/-! Driver of C07 (harness/chain/zz_verif_c07_test.go). Time is relative: now = 0, expiry = tsoff.
+`c07`: one transaction through admission (units under the rules at admission), processor and
+builder (units under the block's rules). `blk`: several transactions through the builder's loop
+with block limits. -/
 namespace Driver.C07
 open Driver Driver.TxCommon HyperModel.Tx
 
 def rules : Rules := {}
 def h : Handler := .pfx [3]
-def univ : List Key := [[0xaa, 0, 1]]
+def addr (i : Nat) : Addr := [UInt8.ofNat i] ++ List.replicate 31 0 ++ [UInt8.ofNat (16 + i)]
+def zero : List Nat := [0, 0, 0, 0, 0]
+
+def parseBal (s : String) : Option (Option Nat) :=
+  if s == "-" then some none else (parseNat s).bind fun n => if n < u64 then some (some n) else none
+
+def withBal (m : Store) (a : Addr) : Option Nat → Store
+  | none => m
+  | some b => upd m (h.key a) (some (encU64 b))
+
+def c07 (ws : List String) : String :=
+  match ws with
+  | [prices, units1, units2, _r2, maxU, sponsor, bal, maxFee, tsoff, scope, actions] =>
+    match parseDims prices, parseDims units1, parseDims units2, parseDims maxU, parseHex sponsor,
+      parseNat maxFee, parseInt tsoff, parseScope scope, parseActions actions, parseBal bal with
+    | some prices, some units1, some units2, some maxU, some sponsor, some maxFee, some tsoff,
+      some scope, some actions, some balv =>
+      if sponsor.length != 33 || (actions.isEmpty && !scope.isEmpty) || maxFee ≥ u64 then "bad-op" else
+      let mk (u : List Nat) : Tx :=
+        { sponsor, actions, units := some u, maxFee, chainID := rules.chainID, timestamp := tsoff }
+      let sc := scopeOf scope [(h.key sponsor, permWrite)]
+      let cur : Store := withBal (fun _ => none) sponsor balv
+      let adm := match preExecute rules h prices (mk units1) { cur, scope := sc } 0 with
+        | none => "ok"
+        | some e => "err:" ++ e.name
+      let proc := match processorAccepts rules h prices 0 sc zero maxU (mk units2) cur with
+        | some r => s!"ok:{r.fee}"
+        | none => "err"
+      let build := match builderIncludes rules h prices 0 sc zero maxU (mk units2) cur with
+        | some r => s!"inc:{r.fee}"
+        | none => "skip"
+      s!"adm={adm} proc={proc} build={build}"
+    | _, _, _, _, _, _, _, _, _, _ => "bad-op"
+  | _ => "bad-op"
+
+def parseBlkTx (s : String) : Option ((Key → Nat) × Tx) :=
+  match splitC s "/" with
+  | [sp, units, maxFee, tsoff, scope, actions] =>
+    match parseNat sp, parseDims units, parseNat maxFee, parseInt tsoff, parseScope scope, parseActions actions with
+    | some sp, some units, some maxFee, some tsoff, some scope, some actions =>
+      if sp > 1 || maxFee ≥ u64 || (actions.isEmpty && !scope.isEmpty) then none else
+      let sponsor := addr (sp + 1)
+      some (scopeOf scope [(h.key sponsor, permWrite)],
+            { sponsor, actions, units := some units, maxFee, chainID := rules.chainID, timestamp := tsoff })
+    | _, _, _, _, _, _ => none
+  | _ => none
+
+def balString (m : Store) (a : Addr) : String :=
+  match m (h.key a) with
+  | none => "-"
+  | some v => toString ((decU64 v).getD 0)
+
+def blk (ws : List String) : String :=
+  match ws with
+  | [prices, maxU, b1, b2, txs] =>
+    match parseDims prices, parseDims maxU, parseBal b1, parseBal b2, allSome ((splitC txs ";").map parseBlkTx) with
+    | some prices, some maxU, some b1, some b2, some txs =>
+      if txs.isEmpty then "bad-op" else
+      let parent := withBal (withBal (fun _ => none) (addr 1) b1) (addr 2) b2
+      let out := builderBlock rules h prices 0 maxU txs ({ parent }, zero)
+      let inc := out.2.map fun o => if o.isSome then "1" else "0"
+      let fs := out.2.map fun o => match o with | some r => toString r.fee | none => "-"
+      let vis := out.1.1.visible
+      s!"inc={",".intercalate inc} fees={",".intercalate fs} bals={balString vis (addr 1)},{balString vis (addr 2)}"
+    | _, _, _, _, _ => "bad-op"
+  | _ => "bad-op"
 
 def step (_ : Unit) (ws : List String) : Unit × String :=
   match ws with
-  | ["c07", prices, units, maxU, sponsor, bal, maxFee, tsoff, scope, actions] =>
-    match parseDims prices, parseDims units, parseDims maxU, parseHex sponsor, parseNat maxFee,
-      parseInt tsoff, parseScope scope, parseActions actions with
-    | some prices, some units, some maxU, some sponsor, some maxFee, some tsoff, some scope, some actions =>
-      let balv : Option (Option Nat) := if bal == "-" then some none else (parseNat bal).map some
-      match balv with
-      | none => ((), "bad-op")
-      | some balv =>
-      if sponsor.length != 33 || (actions.isEmpty && !scope.isEmpty) || maxFee ≥ u64 then ((), "bad-op") else
-      let tx : Tx := { sponsor, actions, units := some units, maxFee, chainID := rules.chainID, timestamp := tsoff }
-      let sc := scopeOf scope [(h.key sponsor, permWrite)]
-      let cur : Store := match balv with
-        | none => fun _ => none
-        | some b => upd (fun _ => none) (h.key sponsor) (some (encU64 b))
-      let zero := [0, 0, 0, 0, 0]
-      let adm := match preExecute rules h prices tx { cur, scope := sc } 0 with
-        | none => "ok"
-        | some e => "err:" ++ e.name
-      let proc := match processorAccepts rules h prices 0 sc zero maxU tx cur with
-        | some r => s!"ok:{r.fee}"
-        | none => "err"
-      let build := match builderIncludes rules h prices 0 sc zero maxU tx cur with
-        | some r => s!"inc:{r.fee}"
-        | none => "skip"
-      ((), s!"adm={adm} proc={proc} build={build}")
-    | _, _, _, _, _, _, _, _ => ((), "bad-op")
+  | "c07" :: rest => ((), c07 rest)
+  | "blk" :: rest => ((), blk rest)
   | _ => ((), "bad-op")
 
 def machine : Machine := { σ := Unit, init := (), step := step }
